@@ -235,6 +235,20 @@ impl Unifiable {
                     }
                 }
 
+                // If the other term is a logic variable whose bindings lead
+                // back to this (unbound) variable, the two variables are
+                // already aliased. Binding this variable as well would
+                // create a cycle ($X -> $Y -> $X), so add nothing.
+                let mut other_end = other;
+                while let Unifiable::LogicVar{id: other_id, name: _} = other_end {
+                    if *other_id == id { return Some(Rc::clone(ss)); }
+                    if *other_id >= length_src { break; }
+                    match &ss[*other_id] {
+                        Some(term) => { other_end = &*term; },
+                        None => { break; },
+                    }
+                }
+
                 let mut length_dst = length_src;
                 if id >= length_dst { length_dst = id + 1; }
 
